@@ -121,6 +121,8 @@ def check_hidden_state(ctx, rep, modules=PURE_MODULES):
     for q, s in sorted(eff.summaries.items()):
         f = ctx.prog.functions[q]
         base = f.module.base[:-3]
+        if base not in modules:
+            continue
         # memoising decorators
         for d in f.node.decorator_list:
             r = ctx.prog.resolve_expr(f, f.module, d.func if isinstance(d, ast.Call) else d)
